@@ -24,7 +24,7 @@ func init() { subs["c04"] = c04 }
 
 var c04Names = []string{"a", "b", "c", "d", "e", "data", "x.txt", "y.bin", "read me.md", "éλ.txt", "日本", "a.b.c", "-dash", "'q'", "k: v", "#h", "tab\tname", "UP", "0"}
 var c04Dirs = []string{"", "", "d/", "d/e/", "dir with space/", "a.b/", "ü/", "deep/1/2/3/4/"}
-var c04Decoys = []string{".datamon/x", ".datamon/sub/y.yaml", ".conflicts/s/p", ".checkpoints", ".checkpoints/z", "a/.datamon/x", ".datamonx", ".conflictsx", "d/.conflicts/p", "./.datamon/q", "/.datamon/r"}
+var c04Decoys = []string{".datamon/x", ".datamon/sub/y.yaml", ".conflicts/s/p", ".checkpoints", ".checkpoints/z", "a/.datamon/x", ".datamonx", ".conflictsx", "..conflicts/q", "..checkpoints", "d/.conflicts/p", "./.datamon/q", "/.datamon/r"}
 
 func c04Tree(r *tr.Rng, leaf, maxFiles int, fsSafe bool) map[string][2]uint64 {
 	n := r.Intn(maxFiles + 1)
